@@ -2,12 +2,18 @@ package util
 
 import (
 	"context"
+	"errors"
 	"fmt"
 	"github.com/markusressel/fan2go/internal/ui"
 	"os/exec"
 	"strings"
 	"time"
 )
+
+// cmdWaitDelay bounds how long SafeCmdExecution keeps waiting for the output
+// pipes of a command after it has exited or its deadline has passed, e.g. when
+// a child process of the command outlives it and still holds stdout open.
+const cmdWaitDelay = 200 * time.Millisecond
 
 func SafeCmdExecution(executable string, args []string, timeout time.Duration) (string, error) {
 	if _, err := CheckFilePermissionsForExecution(executable); err != nil {
@@ -18,16 +24,26 @@ func SafeCmdExecution(executable string, args []string, timeout time.Duration) (
 	defer cancel()
 
 	cmd := exec.CommandContext(ctx, executable, args...)
+	cmd.WaitDelay = cmdWaitDelay
 	out, err := cmd.Output()
 
 	if ctx.Err() == context.DeadlineExceeded {
 		ui.Warning("Command timed out: %s", executable)
+		if err == nil {
+			err = ctx.Err()
+		}
 		return "", err
 	}
 
 	if err != nil {
-		exitError := err.(*exec.ExitError)
-		ui.Warning("Command failed to execute: %s: %s", executable, string(exitError.Stderr))
+		// err is only an *exec.ExitError when the command was started and exited
+		// unsuccessfully; a command that cannot be started at all yields other errors
+		var exitError *exec.ExitError
+		if errors.As(err, &exitError) {
+			ui.Warning("Command failed to execute: %s: %s", executable, string(exitError.Stderr))
+		} else {
+			ui.Warning("Command failed to execute: %s: %s", executable, err)
+		}
 		return "", err
 	}
 
